@@ -1943,8 +1943,10 @@ def remove_dead_ifs(source: str) -> str:
                 # We skip adding it to ifs, so that will be the result.
 
             if any_if_always_false:
+                # No element gets past this clause, whatever the other clauses are
                 any_comprehension_modified = True
-                continue
+                generators = []
+                break
 
             if len(ifs) < len(comprehension.ifs):
                 replacement = ast.comprehension(
